@@ -523,9 +523,10 @@ def takeFloats (F : NumFmt) : Nat → List Tok → Except Err (List Nat × List 
       | .ok (xs, r) => .ok (x :: xs, r)
       | .error e => .error e
 
-/-- optional trailing reference of a line. -/
+/-- optional trailing reference of a line; a missing one is 0 (since the fix
+f77a0cf; before, nothing was pushed and the `Mesh` became inconsistent). -/
 def optRef (F : NumFmt) : List Tok → Except Err (List Int × List Tok)
-  | [] => .ok ([], [])
+  | [] => .ok ([0], [])
   | t :: ts =>
     match F.tokI t with
     | none => .error .badInteger
